@@ -119,6 +119,16 @@ def extract(repo, failures):
         d["blockingRetriesSameRequest"] = bool(re.search(
             r"do\s*\{.*?write_buffer\s*=\s*_prepare_write_buffer\(\s*total_size\s*\)\s*;\s*\}\s*while\s*\(\s*write_buffer\s*==\s*nullptr\s*\)\s*;",
             blk, re.S)) and 0 <= blk.find("_encode_header") and "return false" not in blk[:blk.find("_encode_header")]
+    # unbounded queue: when the switch to the next buffer found it empty the read looks again (F25)
+    ru = func_body(bw, r"std::byte\*\s+_read_unbounded_frontend_queue\s*\([^)]*\)\s*(?:const)?\s*\{")
+    if ru is None:
+        failures.append("backend: _read_unbounded_frontend_queue not found")
+        d["unboundedReadFollowsEmptyBuffers"] = False
+    else:
+        d["unboundedReadFollowsEmptyBuffers"] = bool(re.search(
+            r"read_result\.read_pos\s*==\s*nullptr\s*\)\s*\)?\s*\{\s*return\s+_read_unbounded_frontend_queue\s*\(", ru)
+            or re.search(r"while\s*\([^)]*allocation[^)]*\)", ru))
+
     # the failure counter: incremented with one atomic read-modify-write, read-and-reset with one atomic exchange (a load
     # followed by a store would lose an increment that lands in between: the model's get-and-reset is one step)
     try:
